@@ -476,6 +476,7 @@ func (k c04) fullQuery(c *rt.Ctx, tree *gen.Node, text, cat string) {
 	isBool := tree.T == gen.TB
 	var q string
 	named := isBool && c.R.Chance(1, 2)
+	dup := false
 	if named {
 		// the expression as a named select field used by the filter: the rewrite must leave
 		// what the name refers to intact (a negation over a comparison is the rewriter's food)
@@ -484,6 +485,12 @@ func (k c04) fullQuery(c *rt.Ctx, tree *gen.Node, text, cat string) {
 			text = "!(" + text + ")"
 		}
 		q = "select key, " + text + " as f1 where f1 = true"
+		if c.R.Bool() {
+			// a later field under the same name, foldable to a constant: the name keeps meaning
+			// the first field (the later column is shown but not compared here)
+			dup = true
+			q = "select key, " + text + " as f1, " + []string{"(1 = 1)", "(2 > 3)", "(key = 'zz' | 1 = 1)", "('a' = 'b' & key = 'k')"}[c.R.Intn(4)] + " as f1 where f1 = true"
+		}
 		rec.Inc("fullquery_named_field")
 	} else if isBool {
 		q = "select * where " + text
@@ -522,7 +529,18 @@ func (k c04) fullQuery(c *rt.Ctx, tree *gen.Node, text, cat string) {
 			c.Violation("full-query-fails", cat+" / "+c04Cluster(tree), func() rt.D { return rt.D{"query": q, "outcome": outcomeBrief(o)} })
 			return
 		}
-		if !drive.RowsEqual(o.Rows, want) {
+		got := o.Rows
+		if dup {
+			got = make([][]string, len(o.Rows))
+			for i, r := range o.Rows {
+				if len(r) >= 2 {
+					got[i] = r[:2]
+				} else {
+					got[i] = r
+				}
+			}
+		}
+		if !drive.RowsEqual(got, want) {
 			c.Violation("full-query-differs-from-reference", cat+" / "+c04Cluster(tree), func() rt.D {
 				return rt.D{"query": q, "mode": m.String(), "expected": drive.Trunc(want, 8), "observed": drive.Trunc(o.Rows, 8), "explain": o.Explain}
 			})
